@@ -474,3 +474,47 @@ func ruleC10LockPairing(c *Ctx) {
 	}
 	_ = token.NoPos
 }
+
+func init() {
+	register("C10", ruleC10FromPlainDocument)
+	register("C12", ruleC10FromPlainDocument)
+}
+
+// ruleC10FromPlainDocument: the enclosing document never becomes a row as it is.
+func ruleC10FromPlainDocument(c *Ctx) {
+	c.Doc("c10.from-plain-document", "FROM builder (BuildFromAliasedTable), plain-path arm: when the path resolves to an object (`FROM `<-``, a path without selector) the object becomes a row only through PlainDocument — the enclosing document doubles as the registry of the lazy CTEs, and a CTE whose rows hold that very map makes the document cyclic once the CTE memoises its result: every %v formatter (DISTINCT, CONCAT, LIKE) then overflows the stack, a fatal error no recover stops")
+	f := c.P.Func(modPath, "BuildFromAliasedTable")
+	pd := c.P.Func(modPath, "PlainDocument")
+	if f == nil {
+		c.Unknown("c10.from-plain-document", "BuildFromAliasedTable", "-", "anchor lost")
+		return
+	}
+	// the AsArray call of the plain arm: its argument derives from ExecReader(query.data, name) and is not the thunk's result
+	n := 0
+	var why []string
+	allInstrs(f, func(b *ssa.BasicBlock, in ssa.Instruction) {
+		call, ok := in.(*ssa.Call)
+		if !ok || call.Common().StaticCallee() == nil || call.Common().StaticCallee().Name() != "AsArray" {
+			return
+		}
+		at := NewTB().Of(call.Call.Args[0])
+		if !strings.Contains(at.String(), "ExecReader(") || strings.Contains(at.String(), "dyn(") && !strings.Contains(at.String(), "phi{") {
+			return
+		}
+		// not the dual arm (AsArray(query.data)) and not the CTE arm (result of the thunk)
+		if at.Op == "field" {
+			return
+		}
+		if x := ext0(at); x != nil && x.Op == "call" && x.Name == "dyn" {
+			return
+		}
+		n++
+		if pd == nil || !strings.Contains(at.String(), "PlainDocument(") {
+			why = append(why, "the object a FROM path resolves to becomes a row as it is at "+c.P.Pos(call.Pos())+": with `FROM `<-`` inside a CTE the registry map ends up inside the rows stored in it (cyclic document, stack overflow in DISTINCT/CONCAT/LIKE)")
+		}
+	})
+	if n == 0 {
+		why = append(why, "anchor lost: no AsArray of the resolved path")
+	}
+	c.Check(len(why) == 0, "c10.from-plain-document", "BuildFromAliasedTable", c.P.Pos(f.Pos()), fmt.Sprintf("%d plain-path sources pass objects through PlainDocument", n), strings.Join(uniq(why), "; "))
+}
